@@ -3,6 +3,7 @@ package ucan
 import (
 	"fmt"
 	"time"
+	"unicode/utf8"
 
 	"github.com/ipld/go-ipld-prime/datamodel"
 	"github.com/storacha/go-ucanto/ucan/crypto/signature"
@@ -185,11 +186,100 @@ func Issue[C CaveatBuilder](issuer Signer, audience Principal, capabilities []Ca
 }
 
 func encodeSignaturePayload(payload pdm.PayloadModel, version string, algorithm string) ([]byte, error) {
+	if err := checkSignable(payload, version, algorithm); err != nil {
+		return nil, err
+	}
 	str, err := formatter.FormatSignPayload(payload, version, algorithm)
 	if err != nil {
 		return nil, err
 	}
 	return []byte(str), nil
+}
+
+// checkSignable returns an error if two different tokens could share the
+// DAG-JSON form of this payload, i.e. if a signature over it would not bind
+// every field: the issuer and audience must be defined DIDs, every string
+// must be valid UTF-8 (the JSON encoder writes every invalid byte as U+FFFD)
+// and no caveat or fact may hold a map that reads as a link or as bytes.
+func checkSignable(payload pdm.PayloadModel, version string, algorithm string) error {
+	if payload.Iss == "" || payload.Aud == "" {
+		return fmt.Errorf("issuer and audience must be defined DIDs")
+	}
+	strs := []string{version, algorithm, payload.Iss, payload.Aud}
+	if payload.Nnc != nil {
+		strs = append(strs, *payload.Nnc)
+	}
+	for _, c := range payload.Att {
+		strs = append(strs, c.With, c.Can)
+		if err := checkSignableNode(c.Nb); err != nil {
+			return fmt.Errorf("caveats of %s: %s", c.Can, err)
+		}
+	}
+	for _, f := range payload.Fct {
+		if v, ok := f.Values["/"]; ok && len(f.Values) == 1 && isReservedForm(v) {
+			return fmt.Errorf("fact reads as a DAG-JSON link or bytes")
+		}
+		for k, v := range f.Values {
+			strs = append(strs, k)
+			if err := checkSignableNode(v); err != nil {
+				return fmt.Errorf("fact %s: %s", k, err)
+			}
+		}
+	}
+	for _, s := range strs {
+		if !utf8.ValidString(s) {
+			return fmt.Errorf("string is not valid UTF-8: %q", s)
+		}
+	}
+	return nil
+}
+
+// isReservedForm tells whether {"/": v} is how DAG-JSON writes a link or bytes.
+func isReservedForm(v datamodel.Node) bool {
+	if v.Kind() == datamodel.Kind_Map && v.Length() == 1 {
+		b, err := v.LookupByString("bytes")
+		return err == nil && b.Kind() == datamodel.Kind_String
+	}
+	return v.Kind() == datamodel.Kind_String
+}
+
+func checkSignableNode(n datamodel.Node) error {
+	if n == nil {
+		return nil
+	}
+	switch n.Kind() {
+	case datamodel.Kind_String:
+		if s, _ := n.AsString(); !utf8.ValidString(s) {
+			return fmt.Errorf("string is not valid UTF-8: %q", s)
+		}
+	case datamodel.Kind_List:
+		for it := n.ListIterator(); !it.Done(); {
+			_, v, err := it.Next()
+			if err != nil {
+				return err
+			}
+			if err := checkSignableNode(v); err != nil {
+				return err
+			}
+		}
+	case datamodel.Kind_Map:
+		if v, err := n.LookupByString("/"); err == nil && n.Length() == 1 && isReservedForm(v) {
+			return fmt.Errorf("map reads as a DAG-JSON link or bytes")
+		}
+		for it := n.MapIterator(); !it.Done(); {
+			k, v, err := it.Next()
+			if err != nil {
+				return err
+			}
+			if ks, _ := k.AsString(); !utf8.ValidString(ks) {
+				return fmt.Errorf("map key is not valid UTF-8: %q", ks)
+			}
+			if err := checkSignableNode(v); err != nil {
+				return err
+			}
+		}
+	}
+	return nil
 }
 
 func VerifySignature(ucan View, verifier Verifier) (bool, error) {
